@@ -103,7 +103,7 @@ def check_cases(chk, projs, label):
 def run(chk):
     chk.rule = RULE
     chk.assumptions = ["status_func is a fixed table during one invocation (TrackingBackend queries the scheduler once)",
-                       "CPython dict/set/sorted semantics", "name-pattern selection (fnmatch) is covered by C05/C17 correspondences"]
+                       "CPython dict/set/sorted semantics", "name-pattern selection: Lean glob model (GwfModel/Glob.lean) validated against fnmatch through the CLI histories"]
     for fn, data in common.load_corpus("C02"):
         check_cases(chk, [data["input"] if "input" in data else data], "corpus")
     small = list(enumerate_small(chk.tier))
@@ -120,6 +120,10 @@ def run(chk):
         check_cases(chk, projs[k:k + 20000], "random")
     if chk.counters.get("impl:ok", 0) < 0.5 * chk.evaluations:
         raise common.Broken("degenerate generator: too few valid workflows")
+    # CLI level: `gwf run [patterns]` (plugin glue, fnmatch selection, TrackingBackend) against a simulated cluster
+    import history_check as HC
+    rule, assume = chk.rule, chk.assumptions
+    HC.run_prop(chk, "C02", ["C05"], 96 if chk.tier == "quick" else 1500, rule, assume, lambda r: True)
 
 
 def replay(chk, data):
